@@ -302,12 +302,33 @@ def _text_kind(repo, fi, e, at, depth=0):
         assigns = [s for s in stmts_of(fi.node) if isinstance(s, ast.Assign) and len(s.targets) == 1 and norm(s.targets[0]) == e.id]
         if not assigns:
             return 'other'
+        last = _last_binding_in_block(fi, e.id, at)
+        if last is not None:
+            assigns = [last]          # an unconditional re-binding earlier in the same statement list decides
         ks = [_text_kind(repo, fi, a.value, a, depth + 1) for a in assigns]
         for want in ('text', 'strict', 'other'):
             if want in ks:
                 return want
         return 'total'
     return 'other'
+
+
+def _last_binding_in_block(fi, name, at):
+    """The plain assignment ``name = ..`` that precedes the use in the same statement list with nothing in between that
+    could re-bind the name (None when there is none)."""
+    from ..astutil import stmt_of
+    st = at if isinstance(at, ast.stmt) else stmt_of(fi.mod, at)
+    parent = fi.mod.parents.get(st)
+    for field in ('body', 'orelse', 'finalbody'):
+        b = getattr(parent, field, None)
+        if isinstance(b, list) and st in b:
+            for j in range(b.index(st) - 1, -1, -1):
+                s = b[j]
+                if isinstance(s, ast.Assign) and len(s.targets) == 1 and norm(s.targets[0]) == name:
+                    return s
+                if any(isinstance(n, ast.Name) and n.id == name and isinstance(n.ctx, (ast.Store, ast.Del)) for n in ast.walk(s)):
+                    return None
+    return None
 
 
 def _sanitised_before(repo, fi, name, at):
